@@ -71,6 +71,8 @@ type Engine struct {
 	prog      *ssa.Program
 	ctx       *Ctx
 	solver    *Solver
+	solver2   *Solver
+	crossChecked int
 	layout    map[types.Type]int
 	constObjs []*Object
 	strIntern map[string]int
